@@ -31,6 +31,9 @@ THEOREMS = [
     "PorepyVerif.C47.csv3d_roundtrip_dihedral",
     "PorepyVerif.C47.csv3d_roundtrip_sorted",
     "PorepyVerif.C47.elliptic_transparent",
+    "PorepyVerif.C47.csv2d_roundtrip_tol",
+    "PorepyVerif.C47.csv2d_roundtrip_max",
+    "PorepyVerif.C47.txt_roundtrip_dict",
 ]
 LEAN_MODULES = ["PorepyVerif.C47.Props"]
 AUDIT = "PorepyVerif/C47/Audit.lean"
@@ -83,6 +86,8 @@ EXPLANATION = ("FULL modulo the number codec. Theorems hold for every token code
                "txt: TxtData.format is an explicit, user-facing precision parameter (tests use %5.3e with assert_allclose), so the lossy default %2.2e is not counted as a defect: "
                "txt_roundtrip states exact equality for faithful formats (>= 17 significant digits, verified per value), txt_roundtrip_rounded states that with any format the value read is rnd(v) = float(fmt % v) "
                "(oracle: equal to that, and within 0.5 unit of the last printed digit of v). "
+               "csv2d_roundtrip_tol instantiates the 2-D round trip over rationals with the real tolerance tests: its hypotheses are the decidable input conditions Separated (for both tolerances) and Constructible, "
+               "which the driver evaluates on every csv2d case and the harness compares with its own exact evaluation; csv2d_roundtrip_max covers max_num_fracs; txt_roundtrip_dict is the txt round trip as the dictionary the reader returns. "
                "Two genuine defects found by this check have been repaired in /repo (recorded as fixed: in known_findings.json): np.allclose with the default rtol in the network's point table, "
                "and read_data_from_txt on tables with one column, one row or no rows; the corpus replays them.")
 ASSUMPTIONS = [
@@ -262,14 +267,14 @@ def _gen_csv2d(rng, tier):
     read = {"skip_header": 1 if with_header else 0, "tagcols": None, "max_num_fracs": None, "polyline": False,
             "domain": [frac(v) for v in dom] if (dom and rng.random() < 0.8) else None, "tol": frac(rtol_read)}
     if r < 0.12:
-        read["skip_header"] = rng.choice([0, 1, 2])
+        read["skip_header"] = rng.choice([0, 0, 1, 2])
     elif not with_header and r > 0.8:
         read["skip_header"] = 1  # the documented default on a file without header: the first fracture is skipped
     elif r < 0.22:
         read["max_num_fracs"] = rng.choice([0, 1, 2, nf, nf + 3])
-    elif r < 0.27:
+    elif r < 0.30:
         read["tagcols"] = rng.choice([[0], [4], [0, 0], [5], [2, 3]])
-    elif r < 0.31:
+    elif r < 0.36:
         read["polyline"] = True
     return {"kind": "csv2d", "flavour": flavour, "style": style,
             "fracs": [[frac(a[0]), frac(a[1]), frac(b[0]), frac(b[1])] for a, b in fracs], "tags": tags,
@@ -593,6 +598,25 @@ def _dom2(d):
     return pp.Domain({"xmin": v[0], "xmax": v[1], "ymin": v[2], "ymax": v[3]})
 
 
+def _pre2(case):
+    """the decidable input conditions of csv2d_roundtrip_tol (Separated for both tolerances, Constructible), evaluated
+    in exact rational arithmetic on the Python side"""
+    Fr = Fraction
+    fr = [[Fr(x) for x in f] for f in case["fracs"]]
+    pts = {(f[0], f[1]) for f in fr} | {(f[2], f[3]) for f in fr}
+    pts = sorted(pts)
+    for tol in (Fr(case["tol"]), Fr(case["read"]["tol"])):
+        for i, p in enumerate(pts):
+            for q in pts[i + 1:]:
+                if not (abs(p[0] - q[0]) > tol or abs(p[1] - q[1]) > tol):
+                    return False
+    for f in fr:
+        a, b = (f[0], f[1]), (f[2], f[3])
+        if a == b or all(abs(x - y) <= Fr(1, 10 ** 8) + Fr(1, 10 ** 5) * abs(y) for x, y in zip(a, b)):
+            return False
+    return True
+
+
 def _build_net2(case):
     import porepy as pp
     from porepy.fracs.fracture_network_2d import FractureNetwork2d
@@ -751,7 +775,7 @@ def impl_run(case):
         if kind == "csv2d":
             net = _build_net2(case)
             net.to_csv(p, with_header=case["with_header"])
-            return {"lines": _parse_csv_text(open(p).read()), "net": _read2(p, case["read"])}
+            return {"lines": _parse_csv_text(open(p).read()), "pre": _pre2(case), "net": _read2(p, case["read"])}
         if kind == "raw2d":
             open(p, "w").write(_lines_to_text(case["lines"]))
             return {"net": _read2(p, case["read"])}
@@ -911,6 +935,21 @@ def _oracle_csv2d(case):
                     ok = False
                 if not ok:
                     return {"what": f"row {i} of the file is {l!r}, expected id {i} and {w}", "key": KEY_RTOL if rtol_pair else "csv2d-file-cell"}
+    # csv2d_roundtrip_max on the real code: max_num_fracs = k returns the first k fractures
+    if separated and len(want) >= 2:
+        k = 1 + len(want) // 2
+        with tempfile.TemporaryDirectory(prefix="c47_") as d:
+            p = Path(d) / "n.csv"
+            net.to_csv(p)
+            with warnings.catch_warnings():
+                warnings.simplefilter("ignore")
+                try:
+                    net3, ids3 = fi.network_2d_from_csv(p, tol=tol, return_frac_id=True, max_num_fracs=k)
+                except Exception as e:
+                    return {"what": f"reading with max_num_fracs={k} raised {type(e).__name__}: {e}", "key": "csv2d-max-raises"}
+        back = [[float(f.pts[0, 0]), float(f.pts[1, 0]), float(f.pts[0, 1]), float(f.pts[1, 1])] for f in net3.fractures]
+        if back != want[:k] or [int(i) for i in ids3] != list(range(k)):
+            return {"what": f"max_num_fracs={k} did not return the first {k} fractures", "key": KEY_RTOL if rtol_pair else "csv2d-max-num-fracs"}
     return None
 
 
@@ -1108,7 +1147,43 @@ def stats(cases, impl_outs):
             if isinstance(part, dict) and isinstance(part.get("err"), str):
                 errs[part["err"]] = errs.get(part["err"], 0) + 1
     shared = sum(1 for c in cases if c["kind"] == "csv2d" and len({tuple(f[:2]) for f in c["fracs"]} | {tuple(f[2:]) for f in c["fracs"]}) < 2 * len(c["fracs"]))
-    return {"kinds": kinds, "csv2d_flavour_style": fl2, "error_outcomes_of_real_code": errs,
+    c2 = [(c, o) for c, o in zip(cases, impl_outs) if c["kind"] == "csv2d" and isinstance(o, dict)]
+    c3 = [(c, o) for c, o in zip(cases, impl_outs) if c["kind"] == "csv3d" and isinstance(o, dict)]
+    tx = [c for c in cases if c["kind"] == "txt"]
+    strata = {
+        "csv2d_empty_network": sum(1 for c, _ in c2 if not c["fracs"]),
+        "csv2d_single_fracture": sum(1 for c, _ in c2 if len(c["fracs"]) == 1),
+        "csv2d_input_conditions_hold (Separated+Constructible)": sum(1 for _, o in c2 if o.get("pre") is True),
+        "csv2d_input_conditions_fail": sum(1 for _, o in c2 if o.get("pre") is False),
+        "csv2d_no_header_read_with_default_skip": sum(1 for c, _ in c2 if not c["with_header"] and c["read"]["skip_header"] == 1),
+        "csv2d_header_skip0": sum(1 for c, _ in c2 if c["with_header"] and c["read"]["skip_header"] == 0),
+        "csv2d_max_num_fracs": _hist(["none" if c["read"]["max_num_fracs"] is None else ("0" if c["read"]["max_num_fracs"] == 0 else ("<n" if c["read"]["max_num_fracs"] < len(c["fracs"]) else ">=n")) for c, _ in c2]),
+        "csv2d_read_polyline_or_tagcols": sum(1 for c, _ in c2 if c["read"]["polyline"] or c["read"]["tagcols"] is not None),
+        "csv2d_with_tags": sum(1 for c, _ in c2 if any(c["tags"])),
+        "csv2d_with_domain": sum(1 for c, _ in c2 if c["domain"] is not None),
+        "csv3d_exact_mode": sum(1 for c, _ in c3 if _exact3(c)),
+        "csv3d_has_domain_mismatch": sum(1 for c, _ in c3 if not _exact3(c)),
+        "csv3d_empty_network": sum(1 for c, _ in c3 if not c["fracs"]),
+        "csv3d_built_with_sort_points": sum(1 for c, _ in c3 if c["sort"]),
+        "csv3d_fractures_read_back_in_other_vertex_order": sum(
+            1 for c, o in c3 if _exact3(c) and isinstance(o.get("net"), dict) and "fracs" in o["net"]
+            for h, b in zip(o["held"], o["net"]["fracs"]) if h != b),
+        "csv3d_int_domain": sum(1 for c, _ in c3 if c.get("dom_int")),
+        "csv3d_check_convexity_on": sum(1 for c, _ in c3 if c["check_convexity"]),
+        "raw2d_modes": _hist([c["mode"] for c in cases if c["kind"] == "raw2d"]),
+        "raw2d_polyline_flag_mismatch": sum(1 for c in cases if c["kind"] == "raw2d" and c["read"]["polyline"] != (c["mode"] == "polyline")),
+        "raw_files_with_comment_or_blank_lines": sum(1 for c in cases if "lines" in c and any(isinstance(l, dict) or l == [] for l in c["lines"][1:])),
+        "ell3d_degrees": sum(1 for c in cases if c["kind"] == "ell3d" and c["degrees"]),
+        "txt_one_column": sum(1 for c in tx if len(c["cols"]) == 1),
+        "txt_one_row": sum(1 for c in tx if c["cols"] and all(len(col["arr"]) == 1 for col in c["cols"])),
+        "txt_zero_rows": sum(1 for c in tx if c["cols"] and all(len(col["arr"]) == 0 for col in c["cols"])),
+        "txt_no_arrays": sum(1 for c in tx if not c["cols"]),
+        "txt_unequal_lengths": sum(1 for c in tx if len({len(col["arr"]) for col in c["cols"]}) > 1),
+        "txt_default_format_columns": sum(1 for c in tx for col in c["cols"] if col["fmt"] is None),
+        "txt_faithful_format_columns": sum(1 for c in tx for col in c["cols"] if col["fmt"] in FAITHFUL_FMTS),
+        "txt_names_outside_hypotheses (leading # / duplicate)": sum(1 for c in tx if c["cols"] and not _names_ok([col["name"] for col in c["cols"]])),
+    }
+    return {"kinds": kinds, "strata": strata, "csv2d_flavour_style": fl2, "error_outcomes_of_real_code": errs,
             "csv2d_with_shared_endpoints": shared,
             "csv2d_fracture_counts": _hist([len(c["fracs"]) for c in cases if c["kind"] == "csv2d"]),
             "csv3d_vertex_counts": _hist([len(f) for c in cases if c["kind"] == "csv3d" for f in c["fracs"]]),
